@@ -4,6 +4,7 @@ import (
 	"fmt"
 	"github.com/llir/llvm/asm"
 	"io"
+	"math/big"
 	"math/rand"
 	"regexp"
 	"sort"
@@ -23,7 +24,7 @@ func init() {
 	fw.Register(&fw.Check{
 		ID:    "C14",
 		Level: "exploration",
-		Rule: "edit histories over the public API (add global/function/block, append/insert/remove instruction, set/replace terminator, rename, add metadata, functions/globals/calls over a shared literal struct type and the step that names or renames that type, replacing the callee of a call, declaring a global and giving it an initializer later, putting a metadata definition in front of the others; 6-40 steps, PRNG) are replayed on fresh modules: once alone (reference) and once per observer placement (every position x every observer kind for histories of <=10 steps, PRNG subsets of positions and observers for longer ones; observers: Module.String, WriteTo, Func.LLString, Block.LLString, inst.LLString, Type, Ident, String, Operands, Succs, AssignIDs). The final String() must equal the reference, no observer may make a later step or print panic, two consecutive prints must agree. " +
+		Rule: "edit histories over the public API (add global/function/block, append/insert/remove instruction, set/replace terminator, rename, add metadata, functions/globals/calls over a shared literal struct type and the step that names or renames that type, replacing the callee of a call, declaring a global and giving it an initializer later, putting a metadata definition in front of the others, integer constants shared by several operands and edited in place, float constants built from values beyond 24 bits, block addresses taken from another function; 6-40 steps, PRNG) are replayed on fresh modules: once alone (reference) and once per observer placement (every position x every observer kind for histories of <=10 steps, PRNG subsets of positions and observers for longer ones; observers: Module.String, WriteTo, Func.LLString, Block.LLString, inst.LLString, Type, Ident, String, Operands, Succs, AssignIDs). The final String() must equal the reference, no observer may make a later step or print panic, two consecutive prints must agree. " +
 			"non-trivial = a replay with at least one observer followed by at least one edit; distinct by (history, placement). " +
 			"Histories that shift the numbering of already numbered unnamed values (insert/remove/rename before numbered values after an observer) are part of the PRNG composer and are also run as eight dedicated minimal witness histories",
 		Gen:           genC14,
@@ -64,7 +65,9 @@ type hstate struct {
 	pair      *types.StructType
 	pairFuncs []*ir.Func
 	pairCalls []*ir.InstCall
-	decls     []*ir.Global // globals created as declarations (some are given an initializer later)
+	decls     []*ir.Global      // globals created as declarations (some are given an initializer later)
+	bigInts   []*constant.Int   // integer constants >= 4096 shared by several operands, edited in place later
+	floats    []*constant.Float // float constants that need more than 24 significand bits, shared by several operands
 }
 
 func (h *hstate) pairType() *types.StructType {
@@ -319,6 +322,47 @@ func (h *hstate) apply(s hstep) {
 			return
 		}
 		h.pairCalls[s.I%len(h.pairCalls)].Callee = h.pairFuncs[s.C%len(h.pairFuncs)]
+	case "bigconst":
+		// one integer constant object used by two instructions and a global
+		f := h.fn(s.F)
+		b := h.blk(f, s.B)
+		if b == nil {
+			return
+		}
+		c := constant.NewInt(types.I32, int64(4096+s.N*977))
+		h.bigInts = append(h.bigInts, c)
+		x := ir.NewAdd(c, c)
+		x.SetName(s.Name)
+		b.Insts = append(b.Insts, x)
+	case "constedit":
+		// the value of a shared constant is changed in place through its exported field
+		if len(h.bigInts) == 0 {
+			return
+		}
+		c := h.bigInts[s.I%len(h.bigInts)]
+		c.X.Add(c.X, big.NewInt(int64(1+s.N)))
+	case "fconst":
+		// a float constant built from a float64 that does not fit in 24 bits
+		f := h.fn(s.F)
+		b := h.blk(f, s.B)
+		if b == nil {
+			return
+		}
+		c := constant.NewFloat(types.Float, []float64{16777217, 1.0000000001, -0.5000000001, 33554433}[s.N%4])
+		h.floats = append(h.floats, c)
+		x := ir.NewFAdd(c, c)
+		x.SetName(s.Name)
+		b.Insts = append(b.Insts, x)
+	case "baddr":
+		// the address of a non-entry block of one function is stored in another function
+		f := h.fn(s.F)
+		g := h.fn(s.C)
+		b := h.blk(f, 0)
+		if b == nil || g == nil || len(g.Blocks) < 2 {
+			return
+		}
+		target := g.Blocks[1+s.I%(len(g.Blocks)-1)]
+		b.Insts = append(b.Insts, ir.NewStore(constant.NewBlockAddress(g, target), constant.NewNull(types.NewPointer(types.I8Ptr))))
 	case "gdecl":
 		h.decls = append(h.decls, m.NewGlobal(s.Name, types.I32))
 	case "ginit":
@@ -499,9 +543,21 @@ func genHistory(rng *rand.Rand, n int, fenced bool) []hstep {
 		funcs = append(funcs, fshape{blocks: []int{0}})
 	}
 	for len(steps) < n {
-		r := rng.Intn(116)
+		r := rng.Intn(124)
 		fi := rng.Intn(len(funcs))
 		switch {
+		case r >= 122:
+			steps = append(steps, hstep{Op: "baddr", F: fi, C: rng.Intn(len(funcs)), I: rng.Intn(9)})
+		case r >= 120:
+			bi := rng.Intn(len(funcs[fi].blocks))
+			steps = append(steps, hstep{Op: "fconst", F: fi, B: bi, Name: name(false), N: rng.Intn(4)})
+			funcs[fi].blocks[bi]++
+		case r >= 118:
+			steps = append(steps, hstep{Op: "constedit", I: rng.Intn(9), N: rng.Intn(50)})
+		case r >= 116:
+			bi := rng.Intn(len(funcs[fi].blocks))
+			steps = append(steps, hstep{Op: "bigconst", F: fi, B: bi, Name: name(false), N: rng.Intn(60)})
+			funcs[fi].blocks[bi]++
 		case r >= 114:
 			steps = append(steps, hstep{Op: "ginit", I: rng.Intn(9), N: rng.Intn(100)})
 		case r >= 112:
@@ -704,9 +760,7 @@ func c14Short(r *fw.Rec, idx int) {
 	rng := r.Ctx().Rand(fmt.Sprintf("short/%d", idx))
 	steps := genHistory(rng, 5+rng.Intn(6), false)
 	ref, _, pMsg := runHistory(steps, nil)
-	if pMsg != "" {
-		r.Inconclusive("reference history itself fails (construction bug or C03 business): " + classify(firstLine(pMsg)))
-		r.Note("reference failure: " + firstLine(pMsg) + "\n" + histText(steps, nil))
+	if c14ReferenceFails(r, fmt.Sprintf("short%d", idx), steps, pMsg) {
 		return
 	}
 	for pos := 0; pos <= len(steps); pos++ {
@@ -726,9 +780,7 @@ func c14Long(r *fw.Rec, idx int) {
 	rng := r.Ctx().Rand(fmt.Sprintf("long/%d", idx))
 	steps := genHistory(rng, 12+rng.Intn(29), idx%4 == 0)
 	ref, _, pMsg := runHistory(steps, nil)
-	if pMsg != "" {
-		r.Inconclusive("reference history itself fails (construction bug or C03 business): " + classify(firstLine(pMsg)))
-		r.Note("reference failure: " + firstLine(pMsg))
+	if c14ReferenceFails(r, fmt.Sprintf("long%d", idx), steps, pMsg) {
 		return
 	}
 	for rep := 0; rep < 6; rep++ {
@@ -749,6 +801,25 @@ func c14Long(r *fw.Rec, idx int) {
 		}
 	}
 	r.Tally("histories", "long")
+}
+
+// c14ReferenceFails handles a history that fails without any observer: two
+// consecutive prints of the final module that differ are a violation by
+// themselves (printing twice in a row yields identical text); a panic of a
+// step is a construction problem of the history and decides nothing.
+func c14ReferenceFails(r *fw.Rec, tag string, steps []hstep, pMsg string) bool {
+	if pMsg == "" {
+		return false
+	}
+	if strings.HasPrefix(pMsg, "two consecutive prints differ") {
+		r.Eval(1)
+		r.Violate(fw.Violation{Key: "consecutive-prints-differ/" + tag, Input: histText(steps, nil),
+			What: "without any observer in between, the final module prints differently the second time: " + strings.TrimPrefix(pMsg, "two consecutive prints differ: ")})
+		return true
+	}
+	r.Inconclusive("reference history itself fails (construction bug or C03 business): " + classify(firstLine(pMsg)))
+	r.Note("reference failure: " + firstLine(pMsg) + "\n" + histText(steps, nil))
+	return true
 }
 
 // c14Witnesses runs the minimal histories of the numbering-shift family (the
@@ -779,8 +850,22 @@ func c14Witnesses(r *fw.Rec) {
 		{"print-then-insert-unnamed-block-before-unnamed-insts",
 			[]hstep{f0, {Op: "block", Name: "tail"}, {Op: "append", B: 1, Name: "", Kind: 0}, {Op: "append", B: 1, Name: "", Kind: 0}, {Op: "append", B: 0, Name: "", Kind: 0}}, []hobs{{Pos: 4, Kind: 0}}},
 	}
+	// the number of an unnamed block used from an earlier function, in a module
+	// without globals: never printed / printed once / printed, then shifted by an insertion
+	g1 := hstep{Op: "func", Name: "g", N: 1, Kind: 0, A: 1}
+	ws = append(ws,
+		wit{"blockaddress-of-later-function-first-print",
+			[]hstep{f0, g1, {Op: "block", F: 1, Name: ""}, {Op: "baddr", F: 0, C: 1, I: 0}}, []hobs{{Pos: 4, Kind: 6}}},
+		wit{"blockaddress-of-later-function-print-then-insert",
+			[]hstep{f0, g1, {Op: "block", F: 1, Name: ""}, {Op: "baddr", F: 0, C: 1, I: 0}, {Op: "insert", F: 1, B: 0, I: 0, Name: "", Kind: 0}}, []hobs{{Pos: 4, Kind: 0}}},
+	)
 	for _, w := range ws {
 		ref, _, pMsg := runHistory(w.steps, nil)
+		if strings.HasPrefix(pMsg, "two consecutive prints differ") {
+			r.Eval(1)
+			r.Violate(fw.Violation{Key: "consecutive-prints-differ/witness/" + w.key, Input: histText(w.steps, nil), What: "without any observer, the final module prints differently the second time: " + pMsg})
+			continue
+		}
 		if pMsg != "" {
 			r.Inconclusive("witness reference fails: " + w.key)
 			continue
